@@ -300,7 +300,7 @@ Section WFP.
   Qed.
 
   (* ---------------------------------------------------------------- quantifier nodes *)
-  Lemma prune_incl vs b : incl (prune vs b) vs.
+  Lemma prune_incl G vs b : incl (prune G vs b) vs.
   Proof. apply incl_filter. Qed.
 
   Lemma NoDup_map_filter {A} (f : A -> N) (p : A -> bool) l : NoDup (map f l) -> NoDup (map f (filter p l)).
@@ -311,23 +311,23 @@ Section WFP.
     apply in_map_iff. exists y. tauto.
   Qed.
 
-  Lemma wf_quant_prune ex vs b S : wf S (EQ ex vs b) = true -> wf S (EQ ex (prune vs b) b) = true.
+  Lemma wf_quant_prune G ex vs b S : wf S (EQ ex vs b) = true -> wf S (EQ ex (prune G vs b) b) = true.
   Proof.
     intros W. assert (W' : binders_ok tau QT S vs && wf (map fst vs ++ S) b = true) by (destruct ex; exact W).
     apply andb_true_iff in W'. destruct W' as [W1 W2].
-    assert (G : binders_ok tau QT S (prune vs b) && wf (map fst (prune vs b) ++ S) b = true); [|destruct ex; exact G].
+    assert (Goal' : binders_ok tau QT S (prune G vs b) && wf (map fst (prune G vs b) ++ S) b = true); [|destruct ex; exact Goal'].
     apply andb_true_iff. split.
     - apply binders_ok_spec in W1. apply binders_ok_spec. destruct W1 as [A ND]. split.
-      + intros p Hp. apply A. apply (prune_incl _ _ _ Hp).
+      + intros p Hp. apply A. apply (prune_incl _ _ _ _ Hp).
       + apply NoDup_map_filter. exact ND.
     - eapply wf_rescope; [exact W2| |].
       + intros w Hw. assert (Hs := wf_fv _ _ _ _ W2 w Hw). apply in_app_or in Hs. apply in_or_app.
         destruct Hs as [Hs|Hs]; [left|right; exact Hs].
         apply in_map_iff in Hs. destruct Hs as [p [<- Hp]]. apply in_map. apply filter_In. split; [exact Hp|].
-        apply memN_In. exact Hw.
+        apply orb_true_iff. left. apply memN_In. exact Hw.
       + intros w Hw Hs. apply (wf_bvars _ _ _ _ W2 w Hw). apply in_app_or in Hs. apply in_or_app.
         destruct Hs as [Hs|Hs]; [left|right; exact Hs].
-        apply in_map_iff in Hs. destruct Hs as [p [<- Hp]]. apply in_map. apply (prune_incl _ _ _ Hp).
+        apply in_map_iff in Hs. destruct Hs as [p [<- Hp]]. apply in_map. apply (prune_incl _ _ _ _ Hp).
   Qed.
 
   Lemma wf_mkExists vs b S : wf S (EExists vs b) = true -> wf S (mkExists vs b) = true.
@@ -412,15 +412,15 @@ Section WFP.
     cfg_consts G -> (forall x S', wf S' x = true -> wf S' (rs x) = true) ->
     wf S (EExists vs b) = true -> wf S (walk_exists G rs vs b) = true.
   Proof.
-    intros HG Hrs W. unfold walk_exists. assert (W0 := wf_quant_prune true vs b S W). cbn [EQ] in W0.
-    destruct (elim_step G (prune vs b) b) as [p|] eqn:E.
-    - destruct (elim_loop G (length (prune vs b)) (prune vs b) b) as [vs1 b1] eqn:L.
+    intros HG Hrs W. unfold walk_exists. assert (W0 := wf_quant_prune G true vs b S W). cbn [EQ] in W0.
+    destruct (elim_step G (prune G vs b) b) as [p|] eqn:E.
+    - destruct (elim_loop G (length (prune G vs b)) (prune G vs b) b) as [vs1 b1] eqn:L.
       apply Hrs. apply wf_mkExists. eapply wf_elim_loop; eauto.
     - apply wf_mkExists. exact W0.
   Qed.
 
-  Lemma wf_walk_forall vs b S : wf S (EForall vs b) = true -> wf S (walk_forall vs b) = true.
-  Proof. intros W. unfold walk_forall. apply wf_mkForall. apply (wf_quant_prune false vs b S W). Qed.
+  Lemma wf_walk_forall G vs b S : wf S (EForall vs b) = true -> wf S (walk_forall G vs b) = true.
+  Proof. intros W. unfold walk_forall. apply wf_mkForall. apply (wf_quant_prune G false vs b S W). Qed.
 
   (* ---------------------------------------------------------------- the simplifier preserves wfx *)
   Lemma simp_wf_gen G n : cfg_consts G ->
